@@ -167,6 +167,17 @@ CHECKS = {
         note='Lean kernel + standard axioms; the theorems cover the vnadata allocation discipline only - for vnaproperty and vnacal the decision is the exhaustive injection run '
              '(every allocation site reached by the scripts, not every history); allocations inside libyaml and libc are not failed.',
         ref='DESIGN.md §6 C12'),
+    'C18': dict(
+        technique='Lean 4 proof (weights leave the solutions of exactly fitting data unchanged; positivity of the weight; closed form, value at zero and range of the even-degree chi-square p-value recurrence; linear noise grids via the C10 spline theorem) + correspondence run of the C function chisq_pvalue against the model + statistical oracle on E-network data with synthetic noise',
+        text='Theorems: non-zero row weights do not change the solution set of a system the data satisfy (so exact data give the unweighted calibration), with an injective coefficient '
+             'map the solution is unique; the weight is positive; the p-value recurrence equals exp(-x) sum_{i<k} x^i/i!, is 1 at 0 and lies in (0,1]. On the compiled C: exact '
+             'over-determined data with the model on are never rejected and give the unweighted calibration (1e-7), enabling then disabling restores it bit for bit; Gaussian noise of '
+             'exactly the declared size is rejected at 0.4..20 % overall (per type: at least once and at most 25 %) at significance 0.05; a standard off by 100 sigma is rejected with '
+             'EDOM in at least 90 % of cases; noise given at 2 points of a wider grid equals the same line given on the calibration grid.',
+        note='Lean kernel + standard axioms; Model/PValue.lean is tied to the very C function (its source file is compiled into the harness); the chi-square law, exp and the Gaussian '
+             'generator are trusted; rates are statistical with wide bounds; in the 16-term models single reflects contribute no equations, so gross errors are placed on full-S standards; '
+             'exactly determined systems (0 degrees of freedom, p-value reported as 0) are outside the property and not claimed.',
+        ref='DESIGN.md §6 C18'),
     'C19': dict(
         technique='Lean 4 proof (partial: recurrences => factorisation => solve, determinant, zero pivot <=> singular) + numeric residual oracle in extended precision + factor check on the C output',
         text='For every n and field: entries satisfying the Crout recurrences give L U = P A; the two substitution recurrences give A X = B; the accumulated '
